@@ -80,7 +80,7 @@ class Formatter(FormatterInterface):
 
     def _format_comment_str(self, comment: str) -> str:
         """Format str to comment string."""
-        return f"# {comment} \n"
+        return "".join(f"# {line} \n" for line in comment.split("\n"))
 
     @__call__.register
     def _(self, c: L.Comment) -> str:
